@@ -207,18 +207,27 @@ Definition exported_fn (q : string) : bool :=
   | String.EmptyString => false
   end.
 Definition entry_points : list string := filter exported_fn all_fns.
+(* one edge of the syntactic call graph, cut at createStructDesc *)
+Definition edge (p q : string) : bool :=
+  negb (String.eqb p "createStructDesc") && existsb (has_base q) (callees_of p calls).
 Definition reach_step (u : list string) : list string :=
-  u ++ filter (fun q => negb (str_in q u)
-                        && existsb (fun p => negb (String.eqb p "createStructDesc")
-                                             && existsb (has_base q) (callees_of p calls)) u) all_fns.
+  u ++ filter (fun q => negb (str_in q u) && existsb (fun p => edge p q) u) all_fns.
 Fixpoint iter {A : Type} (n : nat) (f : A -> A) (x : A) : A :=
   match n with O => x | S k => iter k f (f x) end.
 Definition unlocked_fns : list string := iter (List.length all_fns) reach_step entry_points.
 Definition locked_fns : list string :=
   filter (fun q => negb (str_in q unlocked_fns) && negb (String.eqb q "createStructDesc")) all_fns.
+(* U contains the entry points and is closed under the edges (so the iteration reached its fixed
+   point), and no locked function is in U: what proofs/LockReach.v needs to conclude that no call
+   path from an entry point that avoids createStructDesc ends in a locked function.  Stated over
+   arbitrary lists so that the proof never unfolds the computed ones. *)
+Definition closed_under (entries fns : list string) (e : string -> string -> bool) (u : list string) : bool :=
+  subset entries u && forallb (fun p => forallb (fun q => negb (e p q) || str_in q u) fns) u.
+Definition disjoint (a b : list string) : bool := forallb (fun q => negb (str_in q b)) a.
 (* the construction itself is reached (it would be vacuous otherwise) and createStructDesc is how *)
 Definition locked_closed : bool :=
-  str_in "createStructDesc" unlocked_fns && str_in "newTType" locked_fns && str_in "newStructDescAndPrefetch" locked_fns
+  closed_under entry_points all_fns edge unlocked_fns && disjoint locked_fns unlocked_fns
+  && str_in "createStructDesc" unlocked_fns && str_in "newTType" locked_fns && str_in "newStructDescAndPrefetch" locked_fns
   && str_in "rollbackPending" locked_fns && str_in "commitPending" locked_fns.
 
 Definition init_only (ws : list string) : bool :=
